@@ -43,7 +43,10 @@ PRINTF_LIKE = {"err_msg": 4, "err_msg_system": 4, "printf": 1, "fprintf": 2, "sp
 
 # API phases: name -> public entry points (decoder.c).  A name that no longer exists is reported (`missingEntries`).
 PHASES = [
-    ("init", ["decoder_init", "decoder_create", "decoder_reinit", "decoder_reinit_feat"]),
+    ("init", ["decoder_init", "decoder_create", "decoder_reinit", "decoder_reinit_feat", "decoder_apply_mllr",
+              "decoder_set_logfile", "decoder_init_config", "decoder_init_cleanup", "decoder_init_fe", "decoder_init_feat",
+              "decoder_init_feat_s3file", "decoder_init_acmod_pre", "decoder_init_acmod_post", "decoder_init_acmod",
+              "decoder_init_dict", "decoder_init_dict_s3file", "decoder_init_grammar", "decoder_init_grammar_s3file"]),
     ("setGrammar", ["decoder_set_fsg", "decoder_set_jsgf_file", "decoder_set_jsgf_string", "decoder_set_align_text"]),
     ("addWord", ["decoder_add_word"]),
     ("setCmn", ["decoder_set_cmn"]),
@@ -59,6 +62,10 @@ PHASES = [
     ("resultJson", ["decoder_result_json"]),
     ("free", ["decoder_free"]),
 ]
+
+# public functions of decoder.c that belong to no phase, with the reason
+NOT_PHASED = {"decoder_retain": "increments decoder_s.refcount only"}
+API_NAME = re.compile(r"^(decoder|seg_iter|hyp_iter)_")
 
 # what the void* members of the generic containers hold, as far as it hangs off the decoder (hand-listed; every
 # void* member met on the way is reported as an `opaqueEdge`)
@@ -1071,6 +1078,10 @@ def analyse():
                     "rfields": {k.replace(".", "__"): {"chain": W[k][0], "kinds": W[k][1]} for k in rfields},
                     "globals": {g: {"chain": G[g][0], "kinds": G[g][1]} for g in sorted(G)},
                     "unknown_globals": unknown, "global_refs": {g: refs[g] for g in grefs}}
+    assigned = {e for _, es in PHASES for e in es} | set(NOT_PHASED)
+    inv["unassigned_api"] = sorted(f["name"] for f in P.funcs.values()
+                                   if f["file"] == "decoder" and not f["static"] and API_NAME.match(f["name"])
+                                   and f["name"] not in assigned)
     npairs = sum(len([k for k in f["w"] if k in order or k in order2]) for f in P.funcs.values())
     ngpairs = sum(len(f["g"]) for f in P.funcs.values())
     stats = {"files": len(summ), "files_reanalysed": nfresh, "functions": len(P.funcs), "function_field_pairs": npairs,
@@ -1079,7 +1090,7 @@ def analyse():
              "address_taken_functions": len(P.addr), "slot_calls_without_known_target": P.n_unresolved_slot,
              "pointer_flows": P.n_flows, "pointer_flows_reaching_a_write": P.n_flows_live,
              "reachable_structs": len(named), "tier2_structs": len(tier2), "tier2_fields": len(order2),
-             "opaque_void_members": inv["opaque"], "hmm_init_mpx_arguments": sorted(P.hmm_init_mpx),
+             "opaque_void_members": inv["opaque"], "unassigned_api": inv["unassigned_api"], "hmm_init_mpx_arguments": sorted(P.hmm_init_mpx),
              "cuts": [[a, b, c] for a, b, c in CUTS], "slot_refinements": [[a, b, c, d] for a, b, c, d in SLOT_REFINE]}
     return phases, info, stats, inv
 
@@ -1136,6 +1147,8 @@ def render(phases, info, stats):
     L += ["/-- entry points named by the generator that the current tree does not define -/",
           "def missingEntries : List String := [" +
           ", ".join(lstr(e) for ph, *_ in phases for e in info[ph]["missing_entries"]) + "]",
+          "/-- public functions `decoder_*` / `seg_iter_*` / `hyp_iter_*` defined in decoder.c that the generator assigns to no phase -/",
+          "def unassignedApiFunctions : List String := [" + ", ".join(lstr(e) for e in stats["unassigned_api"]) + "]",
           "/-- globals written according to the AST that `nm` does not list as writable data (phase, name) -/",
           "def unknownWrittenGlobals : List (String × String) := [" +
           ", ".join(f"({lstr(ph)}, {lstr(g)})" for ph, _, _, _, unknown, *_ in phases for g in unknown) + "]",
